@@ -96,12 +96,11 @@ theorem final_scratch {F : BodyFn} {P : Project} {g : G} {cfg : Cfg} {so so' : S
     {picks : List Nat} (hwf : WF P) (hg : GraphOK P g) (hdry : cfg.dry = false)
     (hso : Sorter.fromDag g isTaskV (prioFn P) = .ok so)
     (hloop : buildLoop F P g cfg so s0 picks = .ok (so', s')) (hs0 : s0.reports = [])
-    (hc : DbCoherent F P s'.w.db) (t : TaskSpec)
+    (hinv : Inv F P g s'.w) (t : TaskSpec)
     (hup : ∀ u ∈ P.tasks, UpTo P u.id t.id → u.persist = false ∧
       ((u.id, Outcome.success) ∈ s'.reports ∨ (u.id, Outcome.skipUnchanged) ∈ s'.reports)) :
     ∀ u ∈ P.tasks, UpTo P u.id t.id → ∀ p i, (p, i) ∈ u.prods.zipIdx →
       ∃ v, lookup s'.w.fs p = some v ∧ Scratch F P s'.w.fs p v := by
-  have hinv := inv_of_coherent hwf hg hc
   obtain ⟨hnd, hord⟩ := picks_order hg hso hloop
   have factA : ∀ u ∈ P.tasks, UpTo P u.id t.id →
       RowsMatch P g s'.w u.id ∧ ∃ pre post, picks = pre ++ u.id :: post := by
